@@ -161,8 +161,10 @@ static void c20_bloom(void) {
                     mc_fail(key, "type=%s blocks=%u subset=0x%03x carquet=%s ref=%s", TN[t], nb, sub, mc_hex(carquet_bloom_filter_data(f), nb * 32, 64), mc_hex(refbits, nb * 32, 64));
                 }
                 /* write -> read */
-                uint8_t* ser = mc_exact(NULL, nb * 32); size_t w = 0;
-                carquet_status_t st = carquet_bloom_filter_write(f, ser, nb * 32, &w);
+                /* the destination may be larger than the filter (exact, +7, +32, x4 bytes, in turn): the length reported is the filter's */
+                static const size_t XCAP[4] = { 0, 7, 32, 0 }; size_t cap = (size_t)nb * 32 + XCAP[sub & 3] + ((sub & 3) == 3 ? (size_t)nb * 96 : 0);
+                uint8_t* ser = mc_exact(NULL, cap); size_t w = 0;
+                carquet_status_t st = carquet_bloom_filter_write(f, ser, cap, &w);
                 carquet_bloom_filter_t* g = NULL;
                 if (st != CARQUET_OK || w != nb * 32) mc_fail("bloom.write", "status=%d written=%zu", st, w);
                 else if (carquet_bloom_filter_read(&g, ser, w) != CARQUET_OK || !g) mc_fail("bloom.read", "read failed");
